@@ -17,10 +17,11 @@ CONSTANTS KeyIds,       \* ids of explicit 32-byte keys
           MaxLen, MaxTix,
           TLen,         \* abstract ticket length in bytes: below every real length, so that every position valid here
                         \* is valid in the real ticket (the real length is logged at replay)
+          Ops,          \* the kinds of step a history may contain
           Mode          \* "tickets" | "forge"
 VARIABLES hist,         \* the history (with the model's results, which are NOT handed to the harness)
           last          \* the last observation, for the invariants
-vars == <<explicit, auto, nauto, now, tix, hist, last>>
+vars == <<explicit, auto, nauto, now, tix, held, hist, last>>
 
 KeySeqs == {<<a>> : a \in KeyIds} \cup {<<a, b>> : a, b \in KeyIds}
 None == [op |-> "None"]
@@ -33,7 +34,7 @@ Src == 1..Len(tix)
 MSetKeys == \E ks \in KeySeqs : SetKeys(ks) /\ Rec([op |-> "SetKeys", keys |-> ks]) /\ last' = None
 MAdvance == \E h \in Hours : Advance(h) /\ Rec([op |-> "Advance", h |-> h]) /\ last' = None
 MEncrypt == /\ Len(tix) < MaxTix
-            /\ \E st \in States : Encrypt(st, TLen) /\ Rec([op |-> "Encrypt", st |-> st]) /\ last' = None
+            /\ \E st \in States : Encrypt(st, TLen, <<Len(tix) + 1>>) /\ Rec([op |-> "Encrypt", st |-> st]) /\ last' = None
 MFlip == /\ Len(tix) < MaxTix
          /\ \E s \in Src, b \in Bits : Flip(s, BitIndex(tix[s], b)) /\ Rec([op |-> "Flip", src |-> s, bit |-> b]) /\ last' = None
 MTruncate == /\ Len(tix) < MaxTix
@@ -49,12 +50,21 @@ MIndep == \E s \in Src, k \in KeyIds : LET r == Result(tix[s], <<k>>) IN
               /\ Indep(s, k, r) /\ Rec([op |-> "Indep", src |-> s, key |-> k])
               /\ last' = [op |-> "Indep", src |-> s, r |-> r, keys |-> <<k>>]
 
+\* re-examining what earlier calls returned
+MRecheck == \E d \in 1..Len(held) : /\ Recheck(d, held[d]) /\ Rec([op |-> "Recheck", d |-> d])
+                                     /\ last' = [op |-> "Recheck", d |-> d, st |-> held[d]]
+MReread == \E s \in Src : /\ Reread(s, tix[s].raw) /\ Rec([op |-> "Reread", src |-> s])
+                           /\ last' = None
+
+On(o, A) == o \in Ops /\ A
 Next == /\ Mode = "tickets" /\ Len(hist) < MaxLen
-        /\ (MSetKeys \/ MAdvance \/ MEncrypt \/ MFlip \/ MTruncate \/ MExtend \/ MDecrypt \/ MIndep)
+        /\ \/ On("SetKeys", MSetKeys) \/ On("Advance", MAdvance) \/ On("Encrypt", MEncrypt) \/ On("Flip", MFlip)
+           \/ On("Truncate", MTruncate) \/ On("Extend", MExtend) \/ On("Decrypt", MDecrypt) \/ On("Indep", MIndep)
+           \/ On("Recheck", MRecheck) \/ On("Reread", MReread)
 
 \* ---- what the model promises about every observation ----
 \* authenticated: a ticket opens only unmodified and only under its sealing key
-Authentic == last # None /\ last.r.ok =>
+Authentic == (last # None /\ last.op # "Recheck" /\ last.r.ok) =>
                 /\ Intact(tix[last.src])
                 /\ tix[last.src].key \in Range(last.keys)
                 /\ last.r.st = tix[last.src].st
@@ -66,7 +76,9 @@ KeysSane == /\ \A i \in 1..Len(auto) : auto[i].id < 0
 \* the two ways of opening a ticket agree
 Agree == (last # None /\ last.op = "Indep" /\ last.r.ok) => Opens(tix[last.src], <<tix[last.src].key>>)
 
-Observing == Len(hist) > 0 /\ hist[Len(hist)].op \in {"Decrypt", "Indep"}
+\* a state once returned is the state some ticket was sealed from, for ever
+HeldStable == \A d \in 1..Len(held) : \E i \in 1..Len(tix) : tix[i].sealed /\ tix[i].st = held[d]
+Observing == Len(hist) > 0 /\ hist[Len(hist)].op \in {"Decrypt", "Indep", "Recheck", "Reread"}
 Emit == (Mode = "tickets" /\ Len(hist) = MaxLen /\ Observing) => PrintT(<<"SCN", ToJson([ops |-> hist])>>)
 
 -----------------------------------------------------------------------------
